@@ -33,6 +33,9 @@ pub struct RwaSetup {
     pub mock: Address,
     /// the `MockIdVerifier` instance
     pub idv: Address,
+    /// library-compliance wiring only: a second module on the CanTransfer / CanCreate hooks with its own scripted
+    /// answers (the library compliance approves only if EVERY module approves)
+    pub mock2: Option<Address>,
 }
 
 /// Registers `MockCompliance`, `MockIdVerifier` (and `LibCompliance` when `lib_compliance`) and an `RwaTok`
@@ -64,7 +67,16 @@ pub fn rwa_token_setup(e: &Env, admin: &Address, lib_compliance: bool) -> Result
             call(e, &compliance, "add_module_to", args![e; hook, mock.clone()]).map_err(|er| format!("add_module_to: {er}"))?;
         }
     }
-    Ok(RwaSetup { token, compliance, mock, idv })
+    let mock2 = if lib_compliance {
+        let m2 = e.register(MockCompliance, ());
+        for hook in [ComplianceHook::CanTransfer, ComplianceHook::CanCreate] {
+            call(e, &compliance, "add_module_to", args![e; hook, m2.clone()]).map_err(|er| format!("add_module_to (second module): {er}"))?;
+        }
+        Some(m2)
+    } else {
+        None
+    };
+    Ok(RwaSetup { token, compliance, mock, idv, mock2 })
 }
 
 // ------------------------------------------------------------------ case
@@ -131,8 +143,17 @@ pub enum Op {
     UnfreezePartial { who: u16, amt: Amt, auth: OAuth },
     Pause { on: bool, auth: OAuth },
     SetIdentity { who: u16, ok: bool },
-    SetCanTransfer { ok: bool },
-    SetCanCreate { ok: bool },
+    /// `second`: address the second compliance module (library-compliance wiring only; otherwise the only one)
+    SetCanTransfer {
+        ok: bool,
+        #[serde(default)]
+        second: bool,
+    },
+    SetCanCreate {
+        ok: bool,
+        #[serde(default)]
+        second: bool,
+    },
     Advance { k: u32 },
 }
 
@@ -253,8 +274,8 @@ fn op_strategy() -> BoxedStrategy<Op> {
         4 => (s(), amt_unfreeze(), oauth()).prop_map(|(who, amt, auth)| Op::UnfreezePartial { who, amt, auth }),
         4 => (proptest::bool::weighted(0.5), oauth()).prop_map(|(on, auth)| Op::Pause { on, auth }),
         6 => (s(), proptest::bool::weighted(0.45)).prop_map(|(who, ok)| Op::SetIdentity { who, ok }),
-        3 => proptest::bool::weighted(0.45).prop_map(|ok| Op::SetCanTransfer { ok }),
-        2 => proptest::bool::weighted(0.45).prop_map(|ok| Op::SetCanCreate { ok }),
+        3 => (proptest::bool::weighted(0.45), proptest::bool::weighted(0.4)).prop_map(|(ok, second)| Op::SetCanTransfer { ok, second }),
+        2 => (proptest::bool::weighted(0.45), proptest::bool::weighted(0.4)).prop_map(|(ok, second)| Op::SetCanCreate { ok, second }),
         2 => prop_oneof![Just(0u32), Just(1), 2u32..70, 500u32..700].prop_map(|k| Op::Advance { k }),
     ]
     .boxed()
@@ -283,6 +304,7 @@ struct World {
     e: Env,
     tok: Address,
     mock: Address,
+    mock2: Option<Address>,
     idv: Address,
     admin: Address,
     accts: Vec<Address>,
@@ -307,6 +329,9 @@ struct Model {
     id_ok: Vec<bool>,
     can_transfer: bool,
     can_create: bool,
+    /// per-module scripted answers [first, second]; `can_transfer` / `can_create` above are their conjunction
+    ct: [bool; 2],
+    cc: [bool; 2],
     target: Vec<Option<usize>>,
 }
 
@@ -458,7 +483,7 @@ pub fn run(case: &Case, ctx: &mut Ctx) -> R {
     let admin = envx::actor(&e);
     let accts = envx::actors(&e, n);
     let su = rwa_token_setup(&e, &admin, case.lib_compliance).map_err(|er| violation("C04/setup/wiring", er))?;
-    let w = World { e: e.clone(), tok: su.token.clone(), mock: su.mock.clone(), idv: su.idv.clone(), admin, accts };
+    let w = World { e: e.clone(), tok: su.token.clone(), mock: su.mock.clone(), mock2: su.mock2.clone(), idv: su.idv.clone(), admin, accts };
     let e = &w.e;
     if case.lib_compliance {
         ctx.class("lib_compliance_case");
@@ -469,6 +494,8 @@ pub fn run(case: &Case, ctx: &mut Ctx) -> R {
         id_ok: vec![true; n],
         can_transfer: true,
         can_create: true,
+        ct: [true, true],
+        cc: [true, true],
         target: vec![None; n],
     };
     // initial funding through the real mint path (all gates open)
@@ -539,16 +566,25 @@ pub fn run(case: &Case, ctx: &mut Ctx) -> R {
                 m.id_ok[i] = *v;
                 continue;
             }
-            Op::SetCanTransfer { ok: v } => {
+            Op::SetCanTransfer { ok: v, second } => {
                 envx::no_auth(e);
-                call(e, &w.mock, "set_can_transfer", args![e; *v]).map_err(|er| violation("C04/setup/set_can_transfer", er))?;
-                m.can_transfer = *v;
+                let k = if *second && w.mock2.is_some() { 1 } else { 0 };
+                let target = if k == 1 { w.mock2.as_ref().unwrap() } else { &w.mock };
+                call(e, target, "set_can_transfer", args![e; *v]).map_err(|er| violation("C04/setup/set_can_transfer", er))?;
+                m.ct[k] = *v;
+                m.can_transfer = m.ct[0] && m.ct[1];
+                if m.ct[0] != m.ct[1] {
+                    ctx.class("compliance_modules_disagree");
+                }
                 continue;
             }
-            Op::SetCanCreate { ok: v } => {
+            Op::SetCanCreate { ok: v, second } => {
                 envx::no_auth(e);
-                call(e, &w.mock, "set_can_create", args![e; *v]).map_err(|er| violation("C04/setup/set_can_create", er))?;
-                m.can_create = *v;
+                let k = if *second && w.mock2.is_some() { 1 } else { 0 };
+                let target = if k == 1 { w.mock2.as_ref().unwrap() } else { &w.mock };
+                call(e, target, "set_can_create", args![e; *v]).map_err(|er| violation("C04/setup/set_can_create", er))?;
+                m.cc[k] = *v;
+                m.can_create = m.cc[0] && m.cc[1];
                 continue;
             }
             Op::SetRecovery { old, target } => {
